@@ -215,7 +215,7 @@ Proof.
       destruct (Nat.lt_ge_cases j (length cs)) as [Hlt|Hge].
       * apply in_concat. exists (nth j cs []). split; [apply nth_In; exact Hlt|exact Hj].
       * rewrite nth_overflow in Hj by lia. contradiction.
-    + eapply IH; eauto; [eapply NoDup_app_r; eauto|lia].
+    + apply (IH i j x); [eapply NoDup_app_r; exact Hnd | lia | exact Hi | exact Hj].
 Qed.
 
 (* a list of chunks whose concatenation is seq base n is a partition of base .. base+n-1 *)
